@@ -274,14 +274,19 @@ PosMoves ==
           F(p # NoPos /\ e.n = 20480, "HARNESS", "prefix not legal or universe incomplete", [n |-> e.n])
           \cup F(lt \subseteq accs, "C12", "the text of a legal move was refused",
                  [fen |-> FenLine(p), refused |-> lt \ accs])
+          \* one record for all strings accepted although they are not the text of a legal move (there may be thousands)
+          \cup (LET extra == { i \in DOMAIN e.acc : e.acc[i][1] \notin lt } IN
+                IF extra = {} THEN {}
+                ELSE LET i0 == CHOOSE i \in extra : \A j \in extra : i <= j IN
+                     F(FALSE, "C12", "a string that is not the text of a legal move was accepted",
+                       [fen |-> FenLine(p), mv |-> e.acc[i0][1], shown |-> e.acc[i0][2].fl, how_many |-> Cardinality(extra)]))
           \cup UNION { LET s == e.acc[i][1]  x == e.acc[i][2] IN
                        IF s \in lt
                        THEN LET m == CHOOSE m \in Legal(p) : Uci(m) = s
                                 q == Apply(p, m)
                             IN F(Len(x.fl) >= 4 /\ Shown(x) = FenFields(q) /\ x.rows = DiagramRows(q.board), "C12",
                                  "an accepted move was not played as that move", [fen |-> FenLine(p), mv |-> s, want |-> FenLine(q), shown |-> x.fl])
-                       ELSE F(FALSE, "C12", "a string that is not the text of a legal move was accepted",
-                              [fen |-> FenLine(p), mv |-> s, shown |-> x.fl])
+                       ELSE {}
                      : i \in DOMAIN e.acc }
           \cup UNION { LET x == e.rej[i] IN
                        F(x.fl = << >> \/ (Len(x.fl) >= 4 /\ Shown(x) = FenFields(p)), "C12",
